@@ -660,7 +660,7 @@ def load_corpus():
 def main():
     chk = Check("C16", groups=["her"])
     chk.build_props()
-    n_cases = 700 if chk.tier == "quick" else 14000
+    n_cases = 700 if chk.tier == "quick" else 7000
     cases = load_corpus()
     n_corpus = len(cases)
     for i in range(n_cases):
